@@ -159,12 +159,15 @@ def check_C07(tier, seed):
         scripts.append(scen.dispatch_script(r, len(scripts), labels=list(pr) + list(pr)[::-1]))
     scripts += [scen.dispatch_script(r, len(scripts) + i) for i in range(300 if quick else 4000)]
     mcs = [("AntiAmp.tla", "MC_AntiAmp.cfg"), ("Dispatch.tla", "MC_Dispatch.cfg")]
+    # the 3x bound for EVERY datagram size and byte count: inductive, discharged by Apalache
+    ind = V.apalache_inductive("AntiAmpInd.tla", "AInit", "ANext", "C07")
     return generic("C07", tier, seed, mcs, scripts,
                    [("antiamp", "AntiAmpTrace.tla", "AntiAmpTrace.cfg"), ("dispatch", "DispatchTrace.tla", "DispatchTrace.cfg")],
                    ["bytes received are counted by the harness network (wire size of datagrams routed to the connection), not by quinn",
                     "an address counts as validated for the spec only after the harness saw a processed Handshake packet or PATH_RESPONSE from it, or a token validated at accept",
                     "ledger of an address restarts when the connection installs a new path generation for it"],
-                   extra_cov={"client_flight_fate_vectors_enumerated_by_tlc": len(vecs), "generator_states": gst})
+                   extra_cov={"client_flight_fate_vectors_enumerated_by_tlc": len(vecs), "generator_states": gst,
+                              "unbounded_safety": ind})
 
 
 def check_C04(tier, seed):
@@ -199,13 +202,16 @@ def check_C05(tier, seed):
     scripts += [scen.retx_script(r, len(scripts) + i, fate_vec=v) for i, v in enumerate(sample(vecs, 300 if quick else 2000, r))]
     scripts += [scen.retx_script(r, len(scripts) + i) for i in range(500 if quick else 6000)]
     mcs = [("Credit.tla", "MC_Credit.cfg" if quick else "MC_Credit3.cfg"), ("Retx.tla", "MC_Retx.cfg")]
+    # the credit ledger for EVERY window and amount: inductive invariant discharged by Apalache
+    ind = V.apalache_inductive("CreditInd.tla", "CInit", "CNext", "C05", implied="CreditInv")
     return generic("C05", tier, seed, mcs, scripts,
                    [("flow", "FlowTrace.tla", "FlowTrace.cfg"), ("retx", "RetxTrace.tla", "RetxTrace.cfg")],
                    ["the peer's limits are decoded independently from the transport parameter bytes tapped at the crypto provider and from MAX_* frames in datagrams the harness delivered and FrameStats shows as processed",
                     "write()/open() results are compared with the credit in the probe taken immediately before the call",
                     "values above 2^30 are clamped (TLC integers); no run moves that much data",
                     "0-RTT packets (remembered parameters) are outside this ledger, see C17"],
-                   extra_cov={"fate_vectors_enumerated_by_tlc": len(vecs), "generator_states": gst})
+                   extra_cov={"fate_vectors_enumerated_by_tlc": len(vecs), "generator_states": gst,
+                              "unbounded_safety": ind})
 
 
 def cc_stage(tier, seed, r):
@@ -371,7 +377,7 @@ def check_C03(tier, seed):
 
 def check_C06(tier, seed):
     quick = tier == "quick"
-    kinds = {"stream", "reset", "finthenmore", "datagram", "crypto", "maxstreams"}
+    kinds = {"stream", "reset", "finthenmore", "morethenfin", "datagram", "crypto", "maxstreams"}
     r, cases, gst, scripts = hostile_scripts(tier, seed + 6, kinds)
     # "buffers a bounded amount": the same stream range sent over and over behind a hole
     for i in range(80 if quick else 1500):
